@@ -232,14 +232,15 @@ PROPS = {
     ),
     "C11": dict(
         kind="inpkg", pkg="./dkg", overlay=[("c11", "dkg")], stamp=["memnet", "dkgoracle"], level="exploration", engine="overlay+memnet",
+        extra_builds={"pedersen": dict(kind="ext", pkg="./c11p")},
         technique="property-based testing of whole key-generation ceremonies (rapid; rapid.SyncTest for the networked variant): generated cluster size / threshold / validator count and generated round-completion or frame-delivery schedules, algebraic oracle over every node's returned shares (independent Lagrange interpolation in G1, threshold BLS sign/aggregate/verify over t-subsets) followed by the production lock-hash, deposit and registration aggregation with forged-partial negatives",
         level_text="Production runFrostParallel on (a) a scheduling transport that lets one node at a time through the round barriers in a drawn order and (b) the production newFrostP2P + bcast transport over an in-memory libp2p stand-in with drawn frame order and duplicates; "
                    "pedersen.RunDKG over the same stand-in on virtual time. Oracle: same group key and same n public shares everywhere, secret share i matches public share i, every (or 40 drawn) t-subset of public shares reconstructs the key and of secret shares signs for the group key, t-1 shares do not, "
                    "aggLockHashSig/aggDepositData/aggValidatorRegistrations accept the honest partials and produce signatures valid under the group keys, and reject a forged partial.",
         level_note="Runs as an overlay test inside package dkg (no file written to /repo). crypto/rand inside FROST/kyber cannot be seeded, so replay repeats configuration and schedule, not key material. The sync protocol, exchanger and disk steps of dkg.Run are not part of the harness; partial signatures are exchanged by the harness faithfully.",
         runs={
-            "quick": [dict(test="TestC11FrostSchedules", checks=40, shards=4, env={"VERIF_C11_MAXN": "8"}), dict(test="TestC11FrostP2P", checks=10, shards=4)],
-            "thorough": [dict(test="TestC11FrostSchedules", checks=400, shards=10, timeout=3000), dict(test="TestC11FrostP2P", checks=120, shards=6, timeout=3000)],
+            "quick": [dict(test="TestC11FrostSchedules", checks=40, shards=4, env={"VERIF_C11_MAXN": "8"}), dict(test="TestC11FrostP2P", checks=10, shards=4), dict(test="TestC11Pedersen", bin="pedersen", checks=25, shards=2)],
+            "thorough": [dict(test="TestC11FrostSchedules", checks=400, shards=10, timeout=3000), dict(test="TestC11FrostP2P", checks=120, shards=6, timeout=3000), dict(test="TestC11Pedersen", bin="pedersen", checks=400, shards=6, timeout=3000, env={"VERIF_C11_MAXN": "8"})],
         },
     ),
 }
